@@ -298,6 +298,10 @@ def wildmask_st(draw, kmax: int = 4, nc_only: bool = False):
         if shift + kk > 32:
             shift = 32 - kk
         return ((1 << low) - 1) | (((1 << kk) - 1) << shift)
+    if draw(st.integers(0, 11)) == 7:
+        # the highest k bits (what a subnet mask typed in place of a wildcard looks like): 128.0.0.0 ... 254.0.0.0
+        kk = draw(st.integers(1, max(1, min(kmax, 7))))
+        return ((1 << kk) - 1) << (32 - kk)
     low = draw(st.integers(0, 8))
     wild = (1 << low) - 1
     k = draw(st.integers(1, max(1, kmax)))
@@ -824,6 +828,15 @@ def acl_kwargs(case) -> dict:
     return kw
 
 
+def acl_name_st():
+    """ACL names: short ones, names that begin with a header keyword, and names near the 100-character limit (an
+    IOS header is 9 characters longer than the NX-OS header of the same list)."""
+    long_ = st.integers(70, 100).map(lambda n: ("LONG-" + "abcdefghij" * 10)[:n])
+    return st.one_of(st.sampled_from(["T", "ACL-1", "acl_x.y", "110", "T", "ACL-1"]),
+                     st.sampled_from(["standard-mgmt", "extended-vty-in", "standard_snmp", "extendedX", "remark-1", "permit"]),
+                     long_)
+
+
 @st.composite
 def acl_st(draw, platform=None, min_items=0, max_items=12, kmax=3, groups=False, members=True, seqs=True,
            headings=True, group_by=True, noise=False, native=True, neq_multi=True, multi=True, empty_sets=False,
@@ -880,7 +893,7 @@ def acl_st(draw, platform=None, min_items=0, max_items=12, kmax=3, groups=False,
             else:
                 it["seq"] = val
             cur += draw(st.sampled_from([1, 5, 10]))
-    case = {"platform": platform, "name": draw(st.sampled_from(["T", "ACL-1", "acl_x.y", "110"])), "type": "extended",
+    case = {"platform": platform, "name": draw(acl_name_st()), "type": "extended",
             "items": items, "prefix": prefix,
             "group_by": prefix if (group_by and headings and draw(st.integers(0, 2)) == 0) else "",
             "indent": draw(st.sampled_from([" ", "  ", "  ", "   ", "    ", "\t"])) if indent else "  "}
